@@ -361,6 +361,10 @@ type opSpec struct {
 	notOne  bool
 	spec    func(s *specEnv, cs []cls) func(AV) string
 	props   []string
+	// setCheck inspects the whole outcome set of a cell (e.g. "the sign must
+	// vary with the parity of y").
+	setCheck func(cs []cls, outs []AV) string
+	floatArg bool // the single operand is a float64 class
 }
 
 func xor(a, b bool) bool { return a != b }
@@ -870,6 +874,109 @@ func dispatchSpecs() []opSpec {
 			return oneOf(fmt.Sprint(cs[0].class == "inf" && cs[0].neg))
 		}},
 	}
+	specs = append(specs, opSpec{fn: "Decimal.PowWithMode", nDec: 2, extra: []AV{mode}, classes: powClasses, notOne: true, props: []string{"C18", "C15"},
+		spec: func(s *specEnv, cs []cls) func(AV) string {
+			x, y := cs[0], cs[1]
+			signed := func(neg bool, kinds ...string) func(AV) string { return decOf(bp(neg), kinds...) }
+			switch {
+			case y.class == "zero":
+				return oneOf(keyOne(false))
+			case x.class == "one" && !x.neg:
+				return oneOf(keyOne(false))
+			case x.class == "one" && x.neg && y.class == "inf":
+				return oneOf(keyOne(false))
+			case y.class == "one" && !y.neg:
+				return oneOf(keySame(0))
+			case y.class == "one" && y.neg: // the mode-rounded reciprocal
+				switch x.class {
+				case "nan":
+					return oneOf(keySame(0))
+				case "inf":
+					return oneOf(keyZero(x.neg))
+				case "zero":
+					return oneOf(keyInf(x.neg))
+				}
+				return oneOf(keyComputed(x.neg), keyInf(x.neg))
+			case x.class == "nan":
+				return oneOf(keySame(0))
+			case y.class == "nan":
+				return oneOf(keySame(1))
+			case y.class == "inf":
+				switch x.class {
+				case "zero":
+					if y.neg {
+						return oneOf(keyInf(false))
+					}
+					return oneOf(keyZero(false))
+				case "inf":
+					if y.neg {
+						return oneOf(keyZero(false))
+					}
+					return oneOf(keyInf(false))
+				}
+				return oneOf(keyZero(false), keyInf(false)) // |x| vs 1 is a value test
+			case x.class == "zero":
+				kind := "zero"
+				if y.neg {
+					kind = "inf"
+				}
+				if x.neg {
+					return decOf(nil, kind) // sign = parity of y
+				}
+				return signed(false, kind)
+			case x.class == "inf":
+				kind := "inf"
+				if y.neg {
+					kind = "zero"
+				}
+				if x.neg {
+					return decOf(nil, kind)
+				}
+				return signed(false, kind)
+			}
+			if !x.neg {
+				return signed(false, "computed", "one", "zero", "inf", "fields")
+			}
+			return anyOf(oneOf(keyNaN(s.k("payloadOpPow"), s.k("payloadValNegFinite"), s.payVal(y))), decOf(nil, "computed", "one", "zero", "inf", "fields"))
+		},
+		setCheck: func(cs []cls, outs []AV) string {
+			x, y := cs[0], cs[1]
+			// negative base (incl. -0, -Inf) with a finite exponent other than ±1:
+			// the result sign is (-1)^y, so it must not be constant.
+			if !x.neg || x.class == "nan" || (y.class != "fin") {
+				return ""
+			}
+			pos, neg := false, false
+			for _, o := range outs {
+				if d, ok := o.(*avDec); ok && d.kind != "nan" {
+					if b, ok := d.sign.(avBool); ok {
+						if b.b {
+							neg = true
+						} else {
+							pos = true
+						}
+					} else {
+						pos, neg = true, true
+					}
+				}
+			}
+			if !(pos && neg) {
+				return "a negative base raised to a finite power must take its sign from the parity of the exponent, but the result sign is constant"
+			}
+			return ""
+		}})
+	specs = append(specs, opSpec{fn: "FromFloat64", nDec: 1, floatArg: true, props: []string{"C09", "C15"}, spec: func(s *specEnv, cs []cls) func(AV) string {
+		x := cs[0]
+		switch x.class {
+		case "nan":
+			return oneOf(keyNaN(s.k("payloadOpFromFloat64"), 0, 0))
+		case "inf":
+			return oneOf(keyInf(x.neg))
+		case "zero":
+			return oneOf(keyZero(x.neg))
+		}
+		return decOf(nil, "computed", "inf")
+	}})
 	return specs
 }
 
@@ -937,17 +1044,26 @@ func ruleDispatch(c *Ctx) {
 			decIntrinsics(in, sp.notOne)
 			var recv AV
 			var args []AV
-			ops := make([]*avDec, len(cs))
-			for i, cl := range cs {
-				ops[i] = operand(i, cl)
-			}
-			oi := 0
-			if fd.Recv != nil {
-				recv = ops[0]
-				oi = 1
-			}
-			for ; oi < len(ops); oi++ {
-				args = append(args, ops[oi])
+			if sp.floatArg {
+				sg := "+"
+				if cs[0].neg {
+					sg = "-"
+				}
+				fc := map[string]string{"nan": "nan", "inf": sg + "inf", "zero": sg + "0", "fin": sg + "fin"}[cs[0].class]
+				args = append(args, avFloat{fc})
+			} else {
+				ops := make([]*avDec, len(cs))
+				for i, cl := range cs {
+					ops[i] = operand(i, cl)
+				}
+				oi := 0
+				if fd.Recv != nil {
+					recv = ops[0]
+					oi = 1
+				}
+				for ; oi < len(ops); oi++ {
+					args = append(args, ops[oi])
+				}
 			}
 			args = append(args, sp.extra...)
 			outs := in.runFunc(fd, recv, args)
@@ -968,6 +1084,11 @@ func ruleDispatch(c *Ctx) {
 				}
 			}
 			sort.Strings(keys)
+			if sp.setCheck != nil {
+				if w := sp.setCheck(cs, outs); w != "" {
+					bad = append(bad, w)
+				}
+			}
 			if len(bad) > 0 {
 				c.bad(key, fd, fmt.Sprintf("%s on operand classes (%s): %s [all outcomes: %s]", sp.fn, strings.Join(names, ","), strings.Join(bad, " | "), strings.Join(keys, " ")), sp.props...)
 			} else {
